@@ -157,8 +157,10 @@ def run_e2e(rec):
                                stdin=subprocess.DEVNULL, stdout=subprocess.PIPE, stderr=subprocess.PIPE, timeout=120)
             if c.returncode != 0 or not os.path.exists(created):
                 return f"fail(create exit {c.returncode})"
-            body = open(created).read().split("\n")
-            if any(e not in body for e in exp):
+            # (the spelling of the marker - `(esc)` or `(escaped)` - is not what this leg is about)
+            norm = lambda l: l[:-len(" (esc)")] + " (escaped)" if l.endswith(" (esc)") else l
+            body = [norm(l) for l in open(created).read().split("\n")]
+            if any(norm(e) not in body for e in exp):
                 return "fail(create did not record the command under the flags given: " + repr(open(created).read()[-160:]) + ")"
             t = subprocess.run([SCRUT_BIN, "test", "--no-color", created], cwd=root, env=env, stdin=subprocess.DEVNULL, stdout=subprocess.PIPE, stderr=subprocess.PIPE, timeout=120)
             if t.returncode != 0:
